@@ -74,4 +74,79 @@ example :
       [[.refused 4], [.apiErr], [.connected], [.wrote .pingreq]] := by
   decide
 
+/-! ## (i) inbound QoS 2: duplicates suppressed, one dispatch, at PUBREL -/
+
+/-- An inbound QoS 2 PUBLISH is never handed to a callback when it arrives: the
+only output is the PUBREC with its identifier.  If an exchange with that
+identifier is already open (a repeated PUBLISH, whatever its DUP flag and
+content) nothing at all changes: no second entry is added. -/
+theorem C20_qos2_publish_not_dispatched (c : C) (hc : c.connected = true) (p : Pub) (hq : p.qos = 2) :
+    (step c (.peer (.publish p))).2 = [.wrote (.pubrec p.pktid)] ∧
+    ((∃ e ∈ c.pub2in, e.id = p.pktid) → (step c (.peer (.publish p))).1 = c) ∧
+    ((¬ ∃ e ∈ c.pub2in, e.id = p.pktid) →
+      (step c (.peer (.publish p))).1 = { c with pub2in := c.pub2in ++ [{ id := p.pktid, pub := some p }] }) := by
+  rw [step_peer c hc]
+  refine ⟨by rw [peer_publish2 c p hq], fun h => by rw [peer_publish2_dup c p hq h], fun h => ?_⟩
+  rw [peer_publish2 c p hq]
+  have : c.pub2in.any (fun e => e.id == p.pktid) = false := by
+    rw [List.any_eq_false]
+    intro e he hid
+    exact h ⟨e, he, by simpa using hid⟩
+  simp [Queue.wait, this]
+
+/-- **QoS 2 duplicates suppressed.**  One whole exchange on a connected client
+with no other inbound QoS 2 exchange open: the PUBLISH, then any number of
+repeated PUBLISHes with the same identifier (any content, any flags), then the
+PUBREL.  Every PUBLISH is answered by a PUBREC and dispatches nothing; the
+PUBREL step dispatches the content of the *first* PUBLISH exactly once
+(`onPublish c p`: the callbacks the topic trie holds for it), then writes the
+PUBCOMP; afterwards the client is in the state it started from. -/
+theorem C20_qos2_duplicates_suppressed (c : C) (hc : c.connected = true) (he : c.pub2in = []) (p : Pub)
+    (hq : p.qos = 2) (dups : List Pub) (hd : ∀ d ∈ dups, d.qos = 2 ∧ d.pktid = p.pktid) :
+    runOuts c (.peer (.publish p) :: dups.map (fun d => Ev.peer (.publish d)) ++ [.peer (.pubrel p.pktid)]) =
+      [.wrote (.pubrec p.pktid)] :: dups.map (fun _ => [Out.wrote (.pubrec p.pktid)]) ++
+        [onPublish c p ++ [.wrote (.pubcomp p.pktid)]] ∧
+    runState c (.peer (.publish p) :: dups.map (fun d => Ev.peer (.publish d)) ++ [.peer (.pubrel p.pktid)]) = c :=
+  qos2_exchange c hc he p hq dups hd
+
+/-- With several exchanges open the receive queue is the FIFO of C13: a PUBREL
+dispatches, in the order the exchanges were opened, the first PUBLISH of every
+exchange of the longest prefix whose PUBRELs have all arrived (the one
+released now included), then writes the PUBCOMP. -/
+theorem C20_qos2_dispatch_at_pubrel (c : C) (hc : c.connected = true) (id : Nat) :
+    (step c (.peer (.pubrel id))).2 =
+      ((c.pub2in.ack Mqtt.Generated.tPUBREL id).takeWhile (fun e => terminal e.state)).flatMap
+        (fun r => match r.pub with | some pb => onPublish c pb | none => []) ++ [.wrote (.pubcomp id)] := by
+  rw [step_peer c hc]
+  simp only [peer, Queue.acked]
+  congr 1
+
+/-- a subscription to `a/#` (callback 9), an open exchange 100, then the exchange 101 with two
+repeated PUBLISHes of different content; PUBREL 101 is held back behind 100 -/
+def demoI : List Ev :=
+  [.connect (.connack false 0),
+   .api (.subscribe 1 [([97, 47, 35], 2)] 0 9),
+   .peer (.suback 1 [2]),
+   .peer (.publish { qos := 2, topic := [97, 47, 98], pktid := 101, payload := [1] }),
+   .peer (.publish { dup := true, qos := 2, topic := [97, 47, 98], pktid := 101, payload := [1] }),
+   .peer (.publish { dup := true, qos := 2, topic := [97, 47, 99], pktid := 101, payload := [2] }),
+   .peer (.pubrel 101),
+   .peer (.publish { qos := 2, topic := [97], pktid := 100, payload := [3] }),
+   .peer (.publish { qos := 2, topic := [97, 47, 100], pktid := 102, payload := [4] }),
+   .peer (.pubrel 102),
+   .peer (.pubrel 100)]
+
+example : runOuts init demoI =
+    [[.connected],
+     [.wrote (.subscribe 1 [([97, 47, 35], 2)])],
+     [],
+     [.wrote (.pubrec 101)], [.wrote (.pubrec 101)], [.wrote (.pubrec 101)],
+     [.deliver 9 { qos := 2, topic := [97, 47, 98], pktid := 101, payload := [1] }, .wrote (.pubcomp 101)],
+     [.wrote (.pubrec 100)], [.wrote (.pubrec 102)],
+     [.wrote (.pubcomp 102)],
+     [.deliver 9 { qos := 2, topic := [97], pktid := 100, payload := [3] },
+      .deliver 9 { qos := 2, topic := [97, 47, 100], pktid := 102, payload := [4] }, .wrote (.pubcomp 100)]] ∧
+    (runState init demoI).pub2in.length = 0 := by
+  decide
+
 end Mqtt.Properties.C20
